@@ -1,6 +1,11 @@
 import MgpuModel.Util
 import MgpuModel.C02Wf
 import MgpuModel.C02Lds
+import MgpuModel.C02Cfg
+import MgpuModel.C02Bar
+import MgpuModel.C02L1
+import MgpuModel.C02L1c
+import MgpuModel.C02Txn
 /-!
 C02 — timing mode is functionally transparent.  Component models, each a pair
 (emulator side, timing side):
@@ -539,6 +544,11 @@ def handle (line : String) : String :=
   | "c02" :: "cnt" :: t => handleCnt t
   | "c02" :: "wf" :: t => Wf.handleWf t
   | "c02" :: "lds" :: t => Lds.handleLds t
+  | "c02" :: "cfg" :: t => Cfg.handleCfg t
+  | "c02" :: "bar" :: t => Bar.handleBar t
+  | "c02" :: "l1" :: "cache" :: t => L1c.handle t
+  | "c02" :: "l1" :: t => L1.handleL1 t
+  | "c02" :: "txn" :: t => Txn.handleTxn t
   | _ => "bad"
 
 end C02
